@@ -611,6 +611,16 @@ PROXY_FILES = {"on": False}
 
 
 def sim_open(file, mode="r", *args, **kwargs):
+    if isinstance(file, int) and not isinstance(file, bool):
+        from . import sources as _sources
+        pipe = _sources.FD_PIPES.get(file)
+        if pipe is not None and "r" in mode and "b" in mode:
+            # the descriptor of the simulated stdin, re-opened by the program
+            buffering = args[0] if args else kwargs.get("buffering", -1)
+            closefd = kwargs.get("closefd", True)
+            if buffering == 0:
+                return _sources.RawPipeView(pipe, closefd)
+            return pipe
     real = builtins.open(file, mode, *args, **kwargs)
     if (_sim() is not None or PROXY_FILES["on"]) and mode == "rb" \
             and isinstance(file, str):
@@ -946,6 +956,11 @@ def install_stdout():
 
 
 def reset_captures(scratch_dir=None):
+    try:
+        from . import sources as _sources
+        _sources.release_fds()      # descriptors handed out in earlier runs
+    except ImportError:
+        pass
     if isinstance(sys.stdout, _SimStdout):
         sys.stdout._partial.clear()   # unterminated text of an earlier run
     del PRINTED[:]
